@@ -107,12 +107,7 @@ func runC20(c *kit.Ctx) {
 		if f.Body == nil || f.Lit != nil || !reach[f] {
 			continue
 		}
-		var begin *ast.CallExpr
-		for _, call := range f.AllCalls(false) {
-			if kit.CallIs(f.Info(), call, qBegin) {
-				begin = call
-			}
-		}
+		begin := beginCallOf(f)
 		if begin == nil {
 			continue
 		}
